@@ -1,4 +1,5 @@
 //! Reference models, written from the RFC text, independent of `pgp::` parsing/serialisation.
 pub mod armor;
 pub mod canon;
+pub mod crypto;
 pub mod csf;
